@@ -24,8 +24,10 @@ from concurrent.futures import ProcessPoolExecutor
 from pathlib import Path
 
 ROOT = Path(__file__).resolve().parent.parent
-REPLAYS = ROOT / "replays"
-EVIDENCE = ROOT / "evidence"
+# VT_OUT redirects run-time outputs (used by the mutant matrix so that it never overwrites real evidence)
+_OUT = Path(os.environ["VT_OUT"]) if os.environ.get("VT_OUT") else ROOT
+REPLAYS = _OUT / "replays"
+EVIDENCE = _OUT / "evidence"
 KNOWN_FILE = ROOT / "known_findings.txt"
 
 
@@ -240,7 +242,7 @@ def write_replay(prop, case, failures, note=""):
     d.mkdir(parents=True, exist_ok=True)
     p = d / f"{case_hash(case)}.json"
     p.write_text(json.dumps(dict(property=prop, case=case, failures=failures, note=note), indent=1, default=str))
-    return p.relative_to(ROOT)
+    return p.relative_to(_OUT)
 
 
 def run_check(prop, tier, seed, replay=None, workers=None):
